@@ -36,7 +36,7 @@ fn run<P: Kmer>(k: usize, rc: bool, perm: Option<&[usize]>, container: &str, rea
 }
 
 #[allow(deprecated)]
-fn sscan<P: Kmer>(k: usize, rc: bool, perm: &[usize], read: &[u8]) -> String {
+pub fn sscan<P: Kmer>(k: usize, rc: bool, perm: &[usize], read: &[u8]) -> String {
     let ivs = debruijn::msp::simple_scan::<_, P>(k, &DnaBytes(read.to_vec()), perm, rc);
     if ivs.is_empty() { return "-".into(); }
     ivs.iter().map(|iv| format!("{}:{}:{}", iv.bucket(), iv.start(), iv.len())).collect::<Vec<_>>().join(";")
